@@ -6,6 +6,7 @@ cd /verif
 (cd /verif/sim && CARGO_NET_OFFLINE=true cargo build --release --offline >/dev/null 2>&1) || { echo "build failed"; exit 2; }
 mkdir -p /verif/target/snapshot && cp /verif/target/release/verif-sim /verif/target/snapshot/verif-sim-seeds-$$
 BIN=/verif/target/snapshot/verif-sim-seeds-$$
+export VERIF_EVIDENCE_DIR=/verif/target/campaign-evidence-$$; mkdir -p $VERIF_EVIDENCE_DIR
 OUT=/verif/validation/seeds.txt
 echo "# quick checks at other base seeds, harness $(git -C /verif rev-parse --short HEAD), repo $(git -C /repo rev-parse --short HEAD), $(date -u +%FT%TZ)" >> $OUT
 for seed in "$@"; do
@@ -16,4 +17,4 @@ for seed in "$@"; do
     if [ $rc -ne 0 ]; then echo "$out" | grep -E "^VIOLATION|^HARNESS|what:" | head -4 | cut -c1-300 | tee -a $OUT; fi
   done
 done
-rm -f $BIN
+rm -rf $BIN $VERIF_EVIDENCE_DIR
